@@ -13,7 +13,7 @@ from board import EBB_VIDPID, make_device
 
 PROP = 'C19'
 LEVEL = 'exploration'
-N_QUICK = 20000
+N_QUICK = 100000
 N_THOROUGH = 2500000
 WALL_QUICK = 100
 WALL_THOROUGH = 1500
@@ -48,7 +48,7 @@ PORTS = {'mac': ['/dev/cu.usbmodem1411', '/dev/cu.usbmodem14201', '/dev/cu.usbmo
          'nameonly': ['/dev/ttyACM0', '/dev/ttyACM1', '/dev/ttyACM2', '/dev/ttyACM3', '/dev/ttyACM10', '/dev/ttyACM11']}
 NICK_POOL = ['Bob', 'AxiDraw_7', 'NextDraw01', 'East', 'east2', 'Plotter', 'ab', 'Zed', 'MiniKit', 'Lab-3', 'bob2',
              'x1y2z3', 'Studio A', 'Axi Draw 2', 'West Wing 3', 'Axi+1', 'Rm[4]', 'Lab(2', 'a.b*c', 'Emma', 'Bart',
-             'test rig', 'dot', 'SER', 'OK']
+             'test rig', 'dot', 'SER', 'OK', ' Axi', 'USB', 'FT232R', 'Arduino', 'My']
 FOREIGN = [('FT232R USB UART', 'USB VID:PID=0403:6001 SER=A9XYZ LOCATION=1-3'),
            ('n/a', 'n/a'),
            ('Arduino Uno', 'USB VID:PID=2341:0043 SER=7533 LOCATION=1-1.4'),
@@ -117,9 +117,18 @@ def first_board(ports):
 
 
 def could_match(entry, x):
+    """Could this port be said to 'also match' the lookup string?  Deliberately generous: the string occurs
+    (case-insensitively) in the port name, anywhere in the hardware id, inside parentheses in the description,
+    or in the description after the width of the product-name prefix.  Only the product-name prefix region
+    itself cannot carry a name."""
+    import re
     p, d, h, _ = entry
-    x = x.lower()
-    return x in p.lower() or x in d.lower() or x in h.lower()
+    # blanks and underscores are interchangeable in serial tags (Windows shows one for the other; the lookup
+    # code means to try both), so a port whose fields carry the string in the other spelling also "matches"
+    norm = lambda t: t.lower().replace('_', ' ')
+    x = norm(x)
+    paren = norm(' '.join(re.findall(r'\(([^)]*)\)', d)))
+    return x in norm(p) or x in norm(h) or x in norm(d[11:]) or x in paren
 
 
 def tag_of(entry):
@@ -541,11 +550,64 @@ def sweep_cells(tier):
     for style in STYLES:
         for named in (0, 1, 2):
             cells.append([style, named])
+        cells.append(['_history', style])
     return cells
+
+
+def history_scenarios(style):
+    """The same name looked up twice with the bus changing in between: a lookup may not remember."""
+    ports = PORTS[style]
+    pa, pb = ports[0], ports[1]
+
+    def ebb(port, nick, loc):
+        return {'port': port, 'kind': 'ebb', 'fw': [3, 0, 2], 'nick': nick, 'style': style, 'loc': loc}
+    for f, lay in (('ebb_serial.find_named_ebb', 'legacy'), ('ebb3_serial.find_named', 'ebb3')):
+        def look(x, kind, tgt):
+            o = lcall(f, [x])
+            o['look'] = {'kind': kind, 'target': tgt}
+            return o
+        # H1: two boards swap nicknames between two lookups of the same name
+        boards = [ebb(pa, 'Alpha_1', '1-1'), ebb(pb, 'Beta_22', '1-2')]
+        ops = [look('Alpha_1', 'tag', pa), look('beta_22', 'tag', pb),
+               {'op': 'env', 'what': 'rename', 'port': pa, 'nick': 'Gamma_3'},
+               {'op': 'env', 'what': 'rename', 'port': pb, 'nick': 'Alpha_1'},
+               look('Alpha_1', 'tag', pb), look('ALPHA_1', 'tag', pb), look('Gamma_3', 'tag', pa),
+               look('Beta_22', 'absent', None),
+               {'op': 'env', 'what': 'unplug', 'port': pb}, look('Alpha_1', 'absent', None),
+               {'op': 'env', 'what': 'replug', 'port': pb}, look('Alpha_1', 'tag', pb)]
+        yield {'prop': PROP, 'world': {'boards': boards}, 'ops': mk_ops(ops), 'faults': {}, 'snap_dev': False}
+        # H2: a port name that is a prefix of another; the shorter one appears later, earlier in bus order
+        long_name = pa + '2'
+        boards = [dict(ebb(pa, 'Short_1', '1-1'), plugged=False), ebb(long_name, 'Long_22', '1-2')]
+        ops = [look(pa, 'port', pa), {'op': 'env', 'what': 'replug', 'port': pa}, look(pa, 'port', pa),
+               look(pa.upper(), 'port', pa), look(long_name, 'port', long_name),
+               {'op': 'env', 'what': 'unplug', 'port': pa}, look(pa, 'port', pa),
+               {'op': 'env', 'what': 'replug', 'port': pa}, look(pa.lower(), 'port', pa)]
+        yield {'prop': PROP, 'world': {'boards': boards}, 'ops': mk_ops(ops), 'faults': {}, 'snap_dev': False}
+    # H3: end to end on one object: connect by name, disconnect, names swap, connect by the same name again
+    boards = [ebb(pa, 'Alpha_1', '1-1'), ebb(pb, 'Beta_22', '1-2')]
+    c1 = call(0, 'connect', ['Alpha_1'])
+    c1['look'] = {'kind': 'tag', 'target': pa}
+    c2 = call(0, 'connect', ['Alpha_1'])
+    c2['look'] = {'kind': 'tag', 'target': pb}
+    o1 = lcall('ebb_serial.open_named_port', ['Alpha_1'], store=70)
+    o1['look'] = {'kind': 'tag', 'target': pa}
+    o2 = lcall('ebb_serial.open_named_port', ['Alpha_1'], store=71)
+    o2['look'] = {'kind': 'tag', 'target': pb}
+    ops = [{'op': 'new', 'obj': 0}, c1, call(0, 'disconnect'), o1, lcall('ebb_serial.closePort', [{'slot': 70}]),
+           {'op': 'env', 'what': 'rename', 'port': pa, 'nick': 'Gamma_3'},
+           {'op': 'env', 'what': 'rename', 'port': pb, 'nick': 'Alpha_1'},
+           c2, call(0, 'disconnect'), o2, lcall('ebb_serial.closePort', [{'slot': 71}])]
+    yield {'prop': PROP, 'world': {'boards': boards}, 'ops': mk_ops(ops), 'faults': {}, 'snap_dev': False}
 
 
 def sweep_expand(cell):
     from run import recase
+    if cell[0] == '_history':
+        for scn in history_scenarios(cell[1]):
+            yield scn
+            yield dict(scn, world=dict(scn['world'], enum='iter'))
+        return
     style, named = cell
     tname = 'Target 7' if named == 2 else 'Target_7'
     ports = PORTS[style]
